@@ -86,6 +86,35 @@ Theorem C07_report_iff_handover_step : forall node peers h s outs,
 Proof. exact ack_step. Qed.
 Print Assumptions C07_report_iff_handover_step.
 
+(* Nobody registered for the destination (e.g. only WebSocket clients that are connected but have
+   not registered, REST agents without a matching client, a bundle for dtn:none): the arrival of b
+   produces no hand-over to anybody - registered or not -, no "delivered" report and no release
+   of the retention constraint. *)
+Theorem C07_nobody_registered : forall node peers (h : list ag_event) s outs,
+  ag_run (ag_init node peers) h = Some (s, outs) ->
+  forall b orc, (forall r, ag_registered (ast_ch s) r (ab_dst b) = false) ->
+  forall x, In x (snd (ag_deliver orc s b)) -> ag_is_evidence x = false.
+Proof. exact nobody_run. Qed.
+Print Assumptions C07_nobody_registered.
+
+(* While *other* agents and clients register, unregister, connect, disconnect, fetch and receive
+   (any history h' in which no event registers / unregisters recipient r itself; the handlers
+   are atomic w.r.t. each other, so every concurrent execution is such a history), a recipient
+   registered for b's destination stays visible to AgentManager.HasEndpoint, is handed every
+   accepted bundle for that destination exactly once, and the bundle is not given to a peer. *)
+Theorem C07_amid_others : forall node peers h s outs h' s' outs' r,
+  ag_run (ag_init node peers) h = Some (s, outs) ->
+  ag_run s h' = Some (s', outs') ->
+  forallb (fun ev => negb (ag_ev_touches ev r)) h' = true ->
+  forall b orc,
+    ag_registered (ast_ch s) r (ab_dst b) = true ->
+    existsb (N.eqb (ab_id b)) (ast_known s') = false ->
+    ag_mux_has orc 0%nat (ast_ch s') (ab_dst b) = true
+    /\ ag_hands_to r (snd (ag_deliver orc s' b)) = [b]
+    /\ filter ag_is_sent (snd (ag_deliver orc s' b)) = [].
+Proof. exact amid_others. Qed.
+Print Assumptions C07_amid_others.
+
 (* ---- non-vacuity ---- *)
 Definition ex_e1 : ag_eid := (7, 1).
 Definition ex_e2 : ag_eid := (7, 2).
@@ -123,3 +152,24 @@ Example C07_example_locked :
                    (mbx_init [MDeliver (wb 0); MFetch; MDeliver (wb 1); MFetch]) in
   mbx_all_done s = true /\ mbx_got s = [wb 0; wb 1] /\ mbx_box s = None.
 Proof. vm_compute. repeat split. Qed.
+
+(* connected but unregistered WebSocket clients (20 never registers, 21 registers later, 22 sends
+   an unparsable endpoint and is dropped, 23 registers twice and is dropped): a bundle for
+   dtn:none = (8,0) and one for an endpoint nobody registered are forwarded, nobody gets them *)
+Definition ex_none : ag_eid := (8, 0).
+Definition ex_hist2 : list ag_event :=
+  [AERegAgent 0 (AWs []); AERegAgent 1 (ARest [] []);
+   AEWsDial 0 20; AEWsDial 0 21; AEWsDial 0 22; AEWsDial 0 23;
+   AEDeliver (ex_b 100 ex_none) ex_orc; AEDeliver (ex_b 101 ex_e1) ex_orc;
+   AEWsRegister 0 21 (Some ex_e1); AEWsRegister 0 22 None;
+   AEWsRegister 0 23 (Some ex_e2); AEWsRegister 0 23 (Some ex_e1);
+   AEDeliver (ex_b 102 ex_e1) ex_orc; AEDeliver (ex_b 103 ex_e2) ex_orc; AEDeliver (ex_b 104 ex_none) ex_orc].
+Example C07_example_unregistered :
+  option_map (fun p => (ast_ch (fst p), snd p)) (ag_run (ag_init (0, 0) [1; 2]) ex_hist2)
+  = Some ([(0, AWs [(20, None); (21, Some ex_e1)]); (1, ARest [] [])],
+          [AOSent 1 (ex_b 100 ex_none); AOSent 2 (ex_b 100 ex_none);
+           AOSent 1 (ex_b 101 ex_e1); AOSent 2 (ex_b 101 ex_e1);
+           AOHand (RWs 0 21) (ex_b 102 ex_e1); AOReport (ex_b 102 ex_e1); AORelease (ex_b 102 ex_e1);
+           AOSent 1 (ex_b 103 ex_e2); AOSent 2 (ex_b 103 ex_e2);
+           AOSent 1 (ex_b 104 ex_none); AOSent 2 (ex_b 104 ex_none)]).
+Proof. vm_compute. reflexivity. Qed.
